@@ -94,10 +94,10 @@ def run_C01(ctx):
     vlib.model_check(ctx, "FileBuild", cfg_filebuild(16 if q else 40, [2, 3, 4],
                      invs=["Inv_C01_Flatten", "Inv_C11_Sizes"], props=()), name="FileBuild_C01")
     vlib.model_check(ctx, "MCFileRead", cfg_fileread(5, 2, 3, 2, 2, readers=(1,), export=False), name="MCFileRead_contract")
-    t = [gen(ctx, b, "seq", ["file-gen", "-what", "seq", "-maxn", 9 if q else 30, "-wmax", 4 if q else 5]),
-         gen(ctx, b, "seqk1", ["file-gen", "-what", "seq", "-maxn", 8 if q else 20, "-wmax", 3, "-k", 1]),
-         gen(ctx, b, "writers", ["file-gen", "-what", "writers", "-maxn", 6 if q else 14, "-wmax", 3 if q else 4]),
-         gen(ctx, b, "random", ["file-gen", "-what", "random", "-count", 40 if q else 600, "-seed", ctx.seed]),
+    t = [gen(ctx, b, "seq", ["file-gen", "-what", "seq", "-maxn", 9 if q else 45, "-wmax", 4 if q else 6]),
+         gen(ctx, b, "seqk1", ["file-gen", "-what", "seq", "-maxn", 8 if q else 40, "-wmax", 3 if q else 4, "-k", 1]),
+         gen(ctx, b, "writers", ["file-gen", "-what", "writers", "-maxn", 6 if q else 24, "-wmax", 3 if q else 5]),
+         gen(ctx, b, "random", ["file-gen", "-what", "random", "-count", 40 if q else 3000, "-seed", ctx.seed]),
          # a writer that omits BlockSizes: child sizes come from Tsize or from opening the children
          gen(ctx, b, "seq_nobs", ["file-gen", "-what", "seq", "-maxn", 7 if q else 16, "-wmax", 3, "-writer", "own-nobs"]),
          # trees of 8+ levels (narrow width, many chunks) and contents whose chunks repeat
@@ -115,8 +115,10 @@ def run_C04(ctx):
     shapes = [(1, 2, 3, 3, "own"), (1, 2, 3, 3, "boxo-balanced-pb-v0"), (3, 2, 3, 2, "own"), (5, 2, 3, 2, "own")]
     t = hist_traces(ctx, b, shapes, 2, (1, 2), opens=("direct", "reify"))
     if not q:
-        t += hist_traces(ctx, b, [(5, 2, 3, 2, "own"), (1, 2, 3, 3, "boxo-balanced-pb-v0"), (7, 3, 2, 1, "boxo-balanced-pb-v1")],
-                         3, (1,), opens=("direct",))
+        t += hist_traces(ctx, b, [(5, 2, 3, 2, "own"), (1, 2, 3, 3, "boxo-balanced-pb-v0"), (7, 3, 2, 1, "boxo-balanced-pb-v1"),
+                                  (7, 2, 3, 1, "boxo-trickle-raw-v1"), (1, 2, 3, 3, "own")], 3, (1,), opens=("direct", "reify"))
+        # two readers, depth 3, full alphabet: 681 472 histories
+        t += hist_traces(ctx, b, [(5, 2, 3, 2, "own")], 3, (1, 2), opens=("direct",))
     # a mixed-depth (trickle) reference DAG, and longer histories over a reduced alphabet
     t += hist_traces(ctx, b, [(7, 2, 3, 1, "boxo-trickle-raw-v1")], 2, (1, 2), opens=("direct",))
     t += hist_traces(ctx, b, [(5, 2, 3, 2, "own")] if q else [(5, 2, 3, 2, "own"), (7, 2, 3, 1, "boxo-trickle-raw-v1")], 4, (1,), opens=("direct",), small=True)
@@ -189,10 +191,10 @@ def run_C02(ctx):
     q = ctx.quick
     vlib.model_check(ctx, "MCHamtBuild", cfg_hamtbuild(0), name="MCHamtBuild")
     vlib.model_check(ctx, "MCHamtRead", cfg_hamtread(2), name="MCHamtRead")
-    t = [dgen(ctx, b, "sets", FAN_Q if q else FAN_T, ["-orders", 4 if q else 24]),
-         dgen(ctx, b, "random", None, ["-count", 60 if q else 800]),
+    t = [dgen(ctx, b, "sets", FAN_Q if q else FAN_T, ["-orders", 4 if q else 60]),
+         dgen(ctx, b, "random", None, ["-count", 60 if q else 4000]),
          dgen(ctx, b, "longnames", FAN_Q if q else FAN_T),
-         dgen(ctx, b, "big", None, ["-count", 4 if q else 30])]
+         dgen(ctx, b, "big", None, ["-count", 4 if q else 120])]
     ctx.exhaustive = True
     decide(ctx, b, "TraceDir", DIR_INVS["C02"] + ["Inv_C02_Big"], t)
     # bucket choice: both real bit-slicing helpers (verif-tagged exports) against the MSB-first slice, every (offset, width)
@@ -422,6 +424,10 @@ def run_C13(ctx):
     vlib.model_check(ctx, "Reify", open(vlib.os.path.join(vlib.SPEC, "Reify.cfg")).read(), name="Reify")
     vlib.model_check(ctx, "Codec", cfg_codec(1, 0, False, ["none", "packed1"], MUTS_ALL, export=False), name="Codec_malformed")
     t = [hgen(ctx, b, "reify"), hgen(ctx, b, "hamt"), hgen(ctx, b, "file"), hgen(ctx, b, "dir")]
+    if not q:
+        # three defects at a time
+        t += [gen(ctx, b, "hostile_hamt3", ["hostile-gen", "-what", "hamt", "-triples"]),
+              gen(ctx, b, "hostile_file3", ["hostile-gen", "-what", "file", "-triples"])]
     decide(ctx, b, "TraceHostile", ["Inv_NoPanic", "Inv_C13_Reify", "Inv_C13_Op"], t)
     # the three decoders on arbitrary bytes: every truncation / bit flips of every TLC-generated stream, random bytes
     ct = codec_cases(ctx, b, q, fuzzevery=1 if not q else 4)
@@ -521,7 +527,7 @@ def run_C17(ctx):
         raise Broken("the unlocked model shows no race: the NoRace invariant is vacuous")
     ctx.extra["racy_scenarios_in_unlocked_model"] = len(racy)
     ctx.extra["racy_scenario_samples"] = racy[:3]
-    reps = 15 if q else 150
+    reps = 15 if q else 400
     traces_dir, traces_file = [], []
     total_races = 0
     for what, acc in (("dir", traces_dir), ("file", traces_file)):
